@@ -111,6 +111,12 @@ def gen_case(rng, tier, index):
             # overlapping passes with non-nested lifetimes (a short split is
             # passed over several times while a longer pass is under way)
             "stagger": rng.random() < 0.5,
+            # the two overlapping passes read the SAME split, the later one
+            # with the other kind of shuffling
+            "overlap_same_split": rng.random() < 0.5,
+            # tf.data: the returned object was iterated (partly) before
+            "tf_reiterate": [rng.randrange(0, 5)
+                             for _ in range(rng.choice([0, 1, 1, 2]))],
             # line-level pre-emption inside every sedpack.io source file
             "line": rng.random() < 0.45,
             "pattern": rng.getrandbits(30)}
@@ -302,13 +308,21 @@ def run_iface(case):
                 # its own per-example transformation
                 s0 = plan[0]
                 s1 = splits[1] if len(splits) > 1 else s0
+                if case.get("overlap_same_split"):
+                    s1 = s0
+                    probes["overlapping_passes_same_split"] += 1
                 c0, c1 = eread.Counter(st["attrs"]), eread.Counter(st["attrs"])
                 tables.setdefault(s1, env.shard_table(s1))
                 optsd.setdefault(s1, resolve_opts(
                     case, len(env.model.ids(s1)), len(tables[s1])))
+                opts1 = optsd[s1]
+                if s1 == s0:
+                    opts1 = dict(opts1, shuffle=(
+                        0 if opts1["shuffle"] else
+                        len(env.model.ids(s1)) + 7))
                 res, err, sc = eread.run_interleaved(
                     env, ds, [(iface, s0, optsd[s0], c0),
-                              (iface, s1, optsd[s1], c1)],
+                              (iface, s1, opts1, c1)],
                     case["sched_seed"], case.get("pattern", 3),
                     policy=case["policy"])
                 probes["overlapping_passes_on_one_handle"] += 1
@@ -361,6 +375,10 @@ def run_iface(case):
                        "conc_executor"] += 1
             else:
                 s = plan[0]
+                if iface == "tfdata" and case.get("tf_reiterate"):
+                    optsd[s] = dict(optsd[s],
+                                    tf_reiterate=list(case["tf_reiterate"]))
+                    probes["tfdata_object_iterated_again"] += 1
                 results[s] = [dsgen.canon(e, st["attrs"])
                               for e in eread.make_iter(ds, iface, s, optsd[s],
                                                        counters[s])]
